@@ -11,7 +11,6 @@ var NotApplicable = map[string]string{
 // listed as not applicable until a check exists, so the manifest never claims an unbuilt check.
 var Pending = map[string]string{
 	"C07": "check designed in DESIGN.md section 4 but not built yet in this round; not claimed until it exists",
-	"C11": "check designed in DESIGN.md section 4 but not built yet in this round; not claimed until it exists",
 	"C12": "check designed in DESIGN.md section 4 but not built yet in this round; not claimed until it exists",
 	"C13": "check designed in DESIGN.md section 4 but not built yet in this round; not claimed until it exists",
 	"C14": "check designed in DESIGN.md section 4 but not built yet in this round; not claimed until it exists",
